@@ -471,9 +471,9 @@ def _is_query_rooted(expr, fi, seen=None):
         return False
 
 
-def rule_r3(chk, p, t):
+def rule_r3(chk, p, t, rid="C01.R3"):
     r = chk.rule(
-        "C01.R3",
+        rid,
         "effective addressing",
         8,
         "no pure query-builder result is discarded; every handler is selected by the event's scope_instance_id "
@@ -623,8 +623,26 @@ def rule_r3(chk, p, t):
                         )
                         return
                 r.ok(cons, "handler selected by event.scope_instance_id", fi.loc(c))
-                # (iii) estimate copy only when planned
+                # (ii') every event the window query returned is delivered: no condition inside the loop decides whether
+                # the truth agent gets it (the estimate copy: `planned` only, checked below)
                 coll = unparse(arg.value) if isinstance(arg, ast.Subscript) else ""
+                cfg_ = cfg_of(fi)
+                nd_ = cfg_.node_of(c)
+                if nd_ is not None:
+                    inner = [(cfg_.nodes[cid], lab) for cid, lab in cfg_.control_conditions(nd_.id)]
+                    inner = [(x, lab) for x, lab in inner if x.kind == "cond" and any(y is x.ast for y in ast.walk(loop))]
+                    extra = [(x, lab) for x, lab in inner if not (isinstance(x.ast, ast.Attribute) and x.ast.attr == "planned" and "estimate" in coll)]
+                    if extra:
+                        r.violation(
+                            cons,
+                            f"conditional-delivery:{unparse(extra[0][0].ast)[:50]}",
+                            f"an event returned by the step's window query is delivered only when `{unparse(extra[0][0].ast)}` is {extra[0][1]}: the query already selected "
+                            "the events that are due in this step, and an event skipped here is not delivered by any other step (the windows tile the time line), so it never takes effect",
+                            fi.loc(extra[0][0].ast),
+                        )
+                    else:
+                        r.ok(cons + ":unconditional", "delivered for every event of the query", fi.loc(c))
+                # (iii) estimate copy only when planned
                 if "estimate" in coll:
                     cfg = cfg_of(fi)
                     node = cfg.node_of(c)
